@@ -26,6 +26,8 @@ type Reply struct {
 	Truncate bool   // send half of the frame, then drop the connection
 	HoldKey  string // hold the response until Release(HoldKey)
 	RawFrame []byte // if set, send these bytes verbatim instead
+	// CloseAfter: send the reply, then drop the connection
+	CloseAfter bool
 }
 
 // ScanCtx is a decoded Scan request.
@@ -215,7 +217,7 @@ func (c *Cluster) serve(sc *Conn) {
 			return
 		}
 		c.respond(sc, id, rep)
-		if rep.Truncate {
+		if rep.Truncate || rep.CloseAfter {
 			return
 		}
 		if fatal != "" {
@@ -529,6 +531,10 @@ func (c *Cluster) execSingle(sc *Conn, req *wire.Request, regName []byte, get *p
 	e.Executed, e.Result = true, "ok"
 	c.logExecLocked(e)
 	rep := &Reply{}
+	if e.Probe && reg != nil && reg.KillAfterProbe > 0 {
+		reg.KillAfterProbe--
+		rep.CloseAfter = true
+	}
 	if out != nil && out.Kind == "hold" {
 		rep.HoldKey = marker
 	}
